@@ -143,7 +143,16 @@ def run(tier):
     behs, _ = pipeline.behaviours(300 if tier == 'quick' else 3000, common.seed() + 1)
     behs = [pipeline.norm(b) for b in behs]
     behs = [b for b in behs if any(s['a'] != 'extend' for s in b['steps'])]
+    import random
+    random.Random(common.seed() + 14).shuffle(behs)      # the list comes sorted
     behs = behs[:160 if tier == 'quick' else 1600]
+    # wide configurations (>= 8 tasks, two-digit task numbers) with their own sample
+    wide, _ = pipeline.behaviours(120 if tier == 'quick' else 1200, common.seed() + 2,
+                                  cfgname='Pipeline_sim_wide.cfg')
+    wide = [pipeline.norm(b) for b in wide]
+    wide = [b for b in wide if any(s['a'] != 'extend' for s in b['steps'])]
+    random.Random(common.seed() + 15).shuffle(wide)
+    behs += wide[:64 if tier == 'quick' else 640]
     # the counterexample TLC finds for the negative control ExtensionKeepsTotal
     behs.append({'cfg': {'I': 1, 'N': 1, 'C': 3}, 'T0': 5, 'steps': [
         {'a': 'job', 'job': 1, 'delete': False, 'trials': 5}, {'a': 'extend', 'trials': 6},
@@ -170,9 +179,11 @@ def run(tier):
               '(outside the statement of C14; see DESIGN.md)')
 
     def _pcorrupt(r):
+        # a task of a completed job that has lost its result file must be rejected
+        C = r['cfg']['C']
         for s in r['steps']:
-            if s['a'] == 'job' and not any(x['a'] == 'extend' for x in r['steps']):
-                s['obs']['totals'][0] += 1
+            if s['a'] == 'job':
+                s['obs']['files'][C * (s['job'] - 1)] = -1
                 return r
         return None
     common.binding_selftest('c14p', 'Pipeline_Trace', [r for r in precs if r['id'] not in prej],
